@@ -23,7 +23,11 @@ for prop in $props; do
     VERIF_EVIDENCE_DIR="$TMP/ev" bin/webpcheck -prop "$prop" -tier quick -repo "$TMP/wt" -verif "$VERIF" >"$TMP/out" 2>&1
     rc=$?
     ok=1
-    [ $rc -eq 1 ] || { ok=0; why="exit $rc, expected 1"; }
+    if grep -q '^# expect-clean' "$pf"; then
+      [ $rc -eq 0 ] || { ok=0; why="exit $rc, expected 0 (behaviour-preserving edit must not raise an alarm)"; }
+    else
+      [ $rc -eq 1 ] || { ok=0; why="exit $rc, expected 1"; }
+    fi
     grep '^# expect:' "$pf" | sed 's/^# expect: *//' >"$TMP/exp"
     while IFS= read -r e; do
       grep -qF -- "$e" "$TMP/out" || { ok=0; why="report lacks: $e"; }
